@@ -97,6 +97,45 @@ type walker struct {
 	inlined int
 }
 
+// closureTarget: in the full inlining view, a dynamic call whose callee is a closure value created on this path (its
+// MakeClosure is known) and whose body is small enough to walk through.
+func (w *walker) closureTarget(st *pstate, call *ssa.Call) (*ssa.Function, *Term) {
+	if w.an.Mode < 2 || call.Call.IsInvoke() {
+		return nil, nil
+	}
+	if _, isFn := call.Call.Value.(*ssa.Function); isFn {
+		return nil, nil
+	}
+	if _, isB := call.Call.Value.(*ssa.Builtin); isB {
+		return nil, nil
+	}
+	t, ok := st.env[call.Call.Value]
+	if !ok || t == nil || t.Op != "closure" {
+		return nil, nil
+	}
+	mc, ok := t.Val.(*ssa.MakeClosure)
+	if !ok {
+		return nil, nil
+	}
+	f, ok := mc.Fn.(*ssa.Function)
+	if !ok || len(f.Blocks) == 0 || len(f.Blocks) > 12 {
+		return nil, nil
+	}
+	if f == w.fn || len(st.frames) >= 3 {
+		return nil, nil
+	}
+	for _, fr := range st.frames {
+		if fr.fn == f {
+			return nil, nil
+		}
+	}
+	// only closures of this package's functions (or bound method wrappers of them / of the standard library)
+	if len(t.Args) != len(f.FreeVars) {
+		return nil, nil
+	}
+	return f, t
+}
+
 // inlineTarget decides whether a static call is walked through (inlined) rather than kept as a call event.
 func (w *walker) inlineTarget(st *pstate, call *ssa.Call) *ssa.Function {
 	if w.an.Mode == 0 || call.Call.IsInvoke() {
@@ -629,6 +668,26 @@ func (w *walker) runBlock(b *ssa.BasicBlock, start int, from *ssa.BasicBlock, st
 				for i, par := range callee.Params {
 					if i < len(x.Call.Args) {
 						st.env[par] = w.val(st, x.Call.Args[i])
+					}
+				}
+				st.frames = append(st.frames, frame{fn: callee, call: x, retBlock: b, retIdx: idx, defers: st.defers})
+				st.defers = nil
+				w.inlined++
+				w.walkAt(callee.Blocks[0], 0, nil, st)
+				return
+			}
+			if callee, clo := w.closureTarget(st, x); callee != nil {
+				// a call of a closure whose creation this path has seen (typically a function-typed argument of an
+				// inlined helper): walk through its body with its free variables bound as at creation
+				w.ensureHeaders(callee)
+				for i, par := range callee.Params {
+					if i < len(x.Call.Args) {
+						st.env[par] = w.val(st, x.Call.Args[i])
+					}
+				}
+				for i, fv := range callee.FreeVars {
+					if i < len(clo.Args) {
+						st.env[fv] = clo.Args[i]
 					}
 				}
 				st.frames = append(st.frames, frame{fn: callee, call: x, retBlock: b, retIdx: idx, defers: st.defers})
